@@ -10,7 +10,11 @@ Import ListNotations.
 Require Import MV.Policy.PolicySyntax MV.Policy.Policy MV.Policy.Spec MV.Generated.C13_gen MV.Policy.PolicyProofs.
 
 Theorem partial_merge_generated : merge_correct partial_gen.
-Proof. exact partial_gen_merge_correct. Qed.
+Proof.
+  split.
+  - intros; unfold new_args; simpl. rewrite ?app_nil_r; reflexivity.
+  - intros [m|] [u|]; reflexivity.
+Qed.
 
 Theorem partial_unwrap : forall (stops : callable -> bool) (c : callable) (args : list val) (okw : option kwmap),
   let '(c', a', k') := unwrap partial_gen stops c args okw in
@@ -18,7 +22,7 @@ Theorem partial_unwrap : forall (stops : callable -> bool) (c : callable) (args 
   /\ match c' with Base _ => True | Partial _ _ _ => stops c' = true end.
 Proof.
   intros stops c args okw.
-  pose proof (partial_unwrap_gen partial_gen partial_gen_merge_correct stops c args okw) as H1.
+  pose proof (partial_unwrap_gen partial_gen partial_merge_generated stops c args okw) as H1.
   pose proof (unwrap_stops partial_gen stops c args okw) as H2.
   destruct (unwrap partial_gen stops c args okw) as [[c' a'] k']. split; assumption.
 Qed.
